@@ -67,6 +67,10 @@ func runC03(p *core.Program, r *core.Report) {
 	chainRules(p, r, "R13", "C15", []string{"C15.R3"}, "textual references are split into package path and name at the last dot")
 	// R14: an argument of a template is rendered where its placeholder stands - and only there: rendering registers
 	chainRules(p, r, "R14", "C09", []string{"C09.R3"}, "template arguments are rendered at their placeholders only")
+	// R15: "none missing" for the type arguments of generic instantiations: every nested package path is either the file's
+	// own or registered and replaced by the tracker's name for it (C15.R4)
+	chainRules(p, r, "R15", "C15", []string{"C15.R4"}, "every nested package path is blanked (own package) or registered and rewritten")
+	c03R16(p, r)
 }
 
 // c03R8: rendering a snippet registers its imports with the tracker of the
@@ -975,4 +979,66 @@ func endlessGenerator(p *core.Program, f *core.Func, e ast.Expr) bool {
 		},
 	})
 	return !exits
+}
+
+// c03R16: "every qualified reference uses the name bound to its package": the identifier snippet writes a string as it
+// is only when it is NOT a reference - on the edge on which ParseRef failed. Whenever the string parses as a reference
+// (also to a package with a one-segment path such as time or fmt) the text comes from the namer, which registers the
+// package.
+func c03R16(p *core.Program, r *core.Report) {
+	const rule = "R16"
+	r.Floor(rule, 2)
+	idf := p.FuncByName("pkg/gengo/snippet", "(*ident).Frag")
+	if idf == nil {
+		r.Anchor(rule, "pkg/gengo/snippet.(*ident).Frag")
+		return
+	}
+	it, ys := closureYields(p, idf)
+	if it == nil || len(ys) == 0 {
+		r.Anchor(rule, "iterator closure of (*ident).Frag")
+		return
+	}
+	info := it.Info()
+	g := graph(it)
+	n := 0
+	for _, y := range ys {
+		if len(y.Args) != 1 {
+			continue
+		}
+		a0, _ := core.Resolve(info, it.Body, y.Args[0])
+		if c, isCall := ast.Unparen(a0).(*ast.CallExpr); isCall {
+			name := core.CalleeName(info, c)
+			if strings.HasSuffix(name, "Dumper).Name") || strings.HasSuffix(name, "Dumper).TypeLit") {
+				continue // through the namer / the type printer
+			}
+		}
+		n++
+		failed := false
+		for _, fct := range g.FactsAt(g.PointOf(y)) {
+			b, isB := ast.Unparen(fct.Cond).(*ast.BinaryExpr)
+			if !isB || fct.Tag != nil || (b.Op != token.NEQ && b.Op != token.EQL) {
+				continue
+			}
+			var ev *types.Var
+			switch {
+			case constNil(info, b.Y):
+				ev = core.VarOf(info, b.X)
+			case constNil(info, b.X):
+				ev = core.VarOf(info, b.Y)
+			}
+			if ev == nil || (b.Op == token.NEQ) != fct.Val {
+				continue
+			}
+			if d, single := core.SingleDef(info, it.Body, ev); single && d.Index == 1 {
+				if pc, isCall := ast.Unparen(d.Rhs).(*ast.CallExpr); isCall && core.CalleeName(info, pc) == core.G("pkg/types.ParseRef") {
+					failed = true
+				}
+			}
+		}
+		r.Check(failed, rule, it, "raw text is written only when it is not a reference: yield("+core.ExprStr(y.Args[0])+")", y.Pos(), "dominated by ParseRef's error being non-nil",
+			"ID writes `"+core.ExprStr(y.Args[0])+"` as it is on a path on which the text can be a parsable reference: a qualified name reaches the body without going through the namer, so its package is not in the import block (and the qualifier is not the name bound to it)")
+	}
+	if n == 0 {
+		r.OK(rule, it, "ID never writes its argument as it is", it.Node().Pos(), "every yield goes through the namer or the type printer")
+	}
 }
